@@ -16,6 +16,7 @@ package middlewares
 
 import (
 	"net/url"
+	"strings"
 
 	"github.com/gofiber/fiber/v2"
 	"github.com/versity/versitygw/backend"
@@ -37,6 +38,11 @@ func DecodeURL(logger s3log.AuditLogger, mm *metrics.Manager) fiber.Handler {
 		if backend.HasDotSegment(unescp) ||
 			!backend.IsValidId(ctx.Query("uploadId")) ||
 			!backend.IsValidId(ctx.Query("versionId")) {
+			return controllers.SendResponse(ctx, s3err.GetAPIError(s3err.ErrInvalidURI), &controllers.MetaOpts{Logger: logger, MetricsMng: mm})
+		}
+		// an object name of nothing but slashes would be resolved to the
+		// bucket directory itself
+		if _, key, found := strings.Cut(strings.TrimPrefix(unescp, "/"), "/"); found && key != "" && strings.Trim(key, "/") == "" {
 			return controllers.SendResponse(ctx, s3err.GetAPIError(s3err.ErrInvalidURI), &controllers.MetaOpts{Logger: logger, MetricsMng: mm})
 		}
 		ctx.Path(unescp)
